@@ -197,8 +197,9 @@ TIE_FLOORS = {
     "C01": {"committed_shapes_predicted": 1.0, "overlays_predicted": 0.8, "pages_reencoded": 3.0, "commits_with_page_prediction": 0.3, "file_checks": 0.5},
     "C05": {"committed_shapes_predicted": 1.0, "overlays_predicted": 0.8, "pages_reencoded": 3.0, "commits_with_page_prediction": 0.3, "file_checks": 0.5},
     "C07": {"overlays_predicted": 2.0},
-    "C03": {"free_list_protocol_commits_compared": 0.5, "file_checks": 0.5},
-    "C10": {"free_list_protocol_commits_compared": 0.5, "file_checks": 0.5},
+    "C03": {"free_list_protocol_commits_compared": 0.5, "file_checks": 0.5, "commits_whose_placement_first_fit_reproduces": 0.4},
+    "C10": {"free_list_protocol_commits_compared": 0.5, "file_checks": 0.5, "commits_whose_placement_first_fit_reproduces": 0.5,
+            "allocation_calls_replayed": 2.0, "runs_placed_on_released_pages": 1.0, "plateau_stretches_checked": 0.005},
 }
 
 
@@ -249,6 +250,13 @@ def hist_runner(prop, tier, seed, scratch, spec):
         "pages_reencoded": stats.get("pages_reencoded", 0),
         "commits_with_page_prediction": stats.get("commits_whose_freed_pages_were_predicted", 0),
         "file_checks": stats.get("file/ok", 0),
+        "extension_runs_checked_against_free_list": stats.get("extension_runs_checked_against_free_list", 0),
+        "runs_placed_on_released_pages": stats.get("runs_placed_on_released_pages", 0),
+        "commits_whose_placement_first_fit_reproduces": stats.get("commits_whose_placement_first_fit_reproduces", 0),
+        "commits_placement_undecided": stats.get("commits_placement_undecided", 0),
+        "plateau_stretches_checked": stats.get("plateau_stretches_checked", 0),
+        "allocation_calls_replayed": stats.get("allocation_calls_replayed", 0),
+        "free_list_vs_file_checks_at_start": stats.get("free_list_vs_file_checks_at_start", 0),
     }
     floors = TIE_FLOORS.get(prop, {})
     cov["tie_counters"] = ties
@@ -513,6 +521,15 @@ def c12_runner(prop, tier, seed, scratch, spec):
     _, model1 = imgcheck.parallel_probe(scratch, items2)
     for c in range(ncommits + 1):
         dprev[c] = imgcheck.dump_of(model1["prev-c%d" % c][0])[0]
+    # "the previous commit" is the state of commit c-1 (which the base history compared with the specification
+    # through `file` and `dump`), not merely whatever the other header of the same file names
+    for c in range(1, ncommits + 1):
+        if dprev[c] is None or dprev[c] != dnew[c - 1]:
+            keep = os.path.join(vlib.WORK, "replays", "C12-prev-c%d.img" % c)
+            os.makedirs(os.path.dirname(keep), exist_ok=True)
+            shutil.copy(os.path.join(imgdir, "prev-c%d" % c), keep)
+            violations.append((keep, "with the newest header of commit %d zeroed the file does not show the state of commit %d (shows %s)" % (c, c - 1, (dprev[c] or "nothing")[:80]), ""))
+            break
     # damaged images
     items = []
     n_img = 0
@@ -603,6 +620,10 @@ def c12_runner(prop, tier, seed, scratch, spec):
         "damage_classes": dict(classes),
         "replay_format": "a damaged database image: ./check C12 --replay <img> opens it with the real code and the model",
     }
+    lowc = [k_ for k_ in ("newest-significant", "newest-harmless", "older-significant", "older-harmless") if classes.get(k_, 0) < ncommits]
+    if (lowc or n_img < 100 * ncommits) and not violations:
+        pth = vlib.write_replay(prop, "coverage", [], {"broken": "damage classes (nearly) absent: %s; images=%d" % (lowc, n_img)})
+        violations.append((pth, "damaged-image coverage below its floor: classes %s, %d images" % (lowc, n_img), " no-failing-input-found"))
     return {"violations": violations, "coverage": cov, "explored": n_img, "known": known}
 
 
@@ -703,6 +724,8 @@ def c15_runner(prop, tier, seed, scratch, spec):
             problem = "DB::check fails on a golden file: %s" % ichk
         elif mo != io:
             problem = "the pinned-layout Lean reader disagrees with the implementation: %s" % mo[:100]
+        elif hashlib.sha1(open(dst, "rb").read()).hexdigest() != hashlib.sha1(open(os.path.join(gdir, name + ".db"), "rb").read()).hexdigest():
+            problem = "opening and reading the file (no write transaction) changed its bytes"
         if problem is None and own:
             problem = own
         if problem:
@@ -819,13 +842,22 @@ def dumps_by_commit(trace):
         if f[0] == "commit":
             seq += 1
             if got == "ok":
+                if pending:
+                    # two commits without a dump in between: the state between them was not observed, so
+                    # neither can be attributed (never guessed)
+                    for s_ in pending:
+                        out[s_] = [None, None]
+                    out[seq] = [None, None]
+                    last = None
+                else:
+                    out[seq] = [last, None]
                 pending.append(seq)
-                out[seq] = [last, None]
             else:
                 out[seq] = [last, last]
         elif f[0] == "dump" and sep:
             for s_ in pending:
-                out[s_][1] = got
+                if out[s_][0] is not None:
+                    out[s_][1] = got
             if pending:
                 pending = []
             last = got
@@ -841,7 +873,7 @@ def c02_runner(prop, tier, seed, scratch, spec):
     steps = crashcheck.gen_steps_list()
     pagesize = 1024
     violations, samples = [], []
-    n_img = n_ok = n_commits = 0
+    n_img = n_ok = n_commits = n_unattributed = 0
     kinds = collections.Counter()
     items, expect = [], {}
     imgdir = os.path.join(scratch.dbdir, "cimg")
@@ -874,7 +906,8 @@ def c02_runner(prop, tier, seed, scratch, spec):
                 continue
             pre = open(os.path.join(cdir, "pre-%d.img" % c["seq"]), "rb").read()
             dpre, dpost = dumps.get(c["seq"], [None, None])
-            if dpost is None:
+            if dpost is None or dpre is None:
+                n_unattributed += 1
                 continue
             for name, kind, after, img in crashcheck.crash_images(c, pre, pagesize, r, q):
                 iid = "h%d-c%d-%s" % (idx, c["seq"], name)
@@ -926,9 +959,24 @@ def c02_runner(prop, tier, seed, scratch, spec):
         "samples": samples,
         "traces_validated_against_impl": n_ok,
         "commits": n_commits,
+        "commits_without_an_observed_state_before_and_after": n_unattributed,
         "image_kinds": dict(kinds),
         "commit_step_order": steps,
+        "floors": "at least one logged commit per base history, every image kind present, at most 10%% of the commits unattributed, at least 20 images per commit",
     }
+    low = []
+    if n_commits < len(bases):
+        low.append("only %d commits were logged by the shim for %d base histories" % (n_commits, len(bases)))
+    for k_ in ("kill", "power", "power-after-return"):
+        if kinds.get(k_, 0) == 0:
+            low.append("no crash image of kind %s" % k_)
+    if n_unattributed * 10 > max(1, n_commits):
+        low.append("%d of %d commits have no observed state before and after" % (n_unattributed, n_commits))
+    if n_img < 20 * max(1, n_commits - n_unattributed):
+        low.append("%d images for %d commits" % (n_img, n_commits))
+    if low and not violations:
+        pth = vlib.write_replay(prop, "coverage", [], {"broken": "the crash-image correspondence covers far less than the histories contain: " + "; ".join(low)})
+        violations.append((pth, "crash-image coverage below its floor: " + "; ".join(low), " no-failing-input-found"))
     return {"violations": violations, "coverage": cov, "explored": n_img, "known": []}
 
 
@@ -937,13 +985,13 @@ PROPS["C02"] = {"runner": c02_runner, "replay": c12_replay, "level": "proof",
 
 
 # ---- C11: injected I/O faults ---------------------------------------------------------------------------
-def c11_continuation(t0, h0):
+def c11_continuation(t0, h0, second_fault=None):
     """state-agnostic continuation after a commit that reported an I/O error: resolve which state is
     visible, check the file, commit three more transactions, reopen"""
     hx, vtok = jgen.hx, jgen.vtok
     L = []
     t, h = t0, h0
-    L += ["begin %d r" % t, "dump %d" % t, "drop %d" % t, "file", "dbcheck"]
+    L += ["begin %d r" % t, "dump %d" % t, "drop %d" % t, "file", "flstate", "dbcheck"]
     t += 1
     for k in range(3):
         L += ["begin %d w" % t, "gocb %d %d 0 %s" % (t, h, hx(b"after-fault"))]
@@ -951,7 +999,15 @@ def c11_continuation(t0, h0):
             L.append("put %d %d %s %s" % (t, h, hx(b"af-%d-%d" % (k, j)), vtok(bytes([65 + j]) * (100 + 250 * j))))
         if k == 1:
             L.append("del %d %d %s" % (t, h, hx(b"af-0-2")))
-        L += ["commit %d" % t, "file"]
+        if second_fault is not None and k == 0:
+            # a second fault, in the first transaction after the faulted one
+            L += [second_fault, "commit %d" % t, "fired"]
+            t += 1
+            L += ["begin %d r" % t, "dump %d" % t, "drop %d" % t, "file", "flstate", "dbcheck"]
+            t += 1
+            h += 1
+            continue
+        L += ["commit %d" % t, "file", "flstate"]
         t += 1
         h += 1
         L += ["begin %d r" % t, "dump %d" % t, "drop %d" % t, "dbcheck"]
@@ -1005,9 +1061,23 @@ def c11_runner(prop, tier, seed, scratch, spec):
             for kind, n, errno_, short in faults:
                 fl = "fault %s %d %d" % (kind, n, errno_) + (" %d" % short if short is not None else "")
                 hid = "c11-%d-l%d-%s%d-e%d%s" % (idx, li, kind, n, errno_, "-s%d" % short if short is not None else "")
-                lines = ["hist " + hid] + base[1:li] + [fl, base[li]] + c11_continuation(5000, 5000)
+                # the same fault under strict mode (the commit runs DB::check between the data and the header)
+                cfgl = base[1].replace("strict=0", "strict=%d" % (len(variants) % 2))
+                lines = ["hist " + hid, cfgl] + base[2:li] + [fl, base[li], "fired"] + c11_continuation(5000, 5000)
                 variants.append(lines)
-                fault_kinds["%s-%s" % (kind, "short" if short is not None else "fail")] += 1
+                fault_kinds["%s-%s" % (kind, "short-then-error" if short is not None and errno_ else "short-no-error" if short is not None else "fail")] += 1
+                fault_kinds["under-strict-mode"] += 1 if "strict=1" in cfgl else 0
+            # pairs: a second fault in the transaction that follows the faulted one
+            for _ in range(3 if q else 12):
+                k1, n1, e1, s1 = r.choice(faults)
+                f1 = "fault %s %d %d" % (k1, n1, e1) + (" %d" % s1 if s1 is not None else "")
+                k2 = r.choice(["write", "fsync"])
+                n2 = r.randrange(1, 4) if k2 == "write" else r.randrange(1, 3)
+                f2 = "fault %s %d %d" % (k2, n2, r.choice([5, 28]))
+                hid = "c11-%d-l%d-pair%d" % (idx, li, len(variants))
+                cfgl = base[1].replace("strict=0", "strict=%d" % (len(variants) % 2))
+                variants.append(["hist " + hid, cfgl] + base[2:li] + [f1, base[li], "fired"] + c11_continuation(5000, 5000, second_fault=f2))
+                fault_kinds["pair"] += 1
         # file extension failure: a commit that must grow the file, under a file-size limit
         hx, vtok = jgen.hx, jgen.vtok
         lim = ["hist c11-limit-%d" % idx, "cfg pagesize=1024 numpages=8 strict=0 populate=0", "open",
@@ -1039,7 +1109,25 @@ def c11_runner(prop, tier, seed, scratch, spec):
         "traces_validated_against_impl": n_ok,
         "fault_kinds": dict(fault_kinds),
         "commit_outcomes": outcome_stats,
+        "what_the_injected_fault_did_vs_what_commit_returned": {k: v for k, v in stats.items() if k.startswith("fired/")},
+        "free_list_vs_file_checks_after_faults": stats.get("free_list_vs_file_checks_at_start", 0),
+        "floors": "an error delivered by the shim in at least 70% of the error-injecting cases (and commit returning it: checked per case), a short write without error in at least 70% of those cases, at least one free-list-against-file check per case",
     }
+    low = []
+    n_err_cases = fault_kinds["fsync-fail"] + fault_kinds["write-fail"] + fault_kinds["write-short-then-error"]
+    got_err = sum(v for k, v in stats.items() if k.startswith("fired/err/"))
+    got_short = sum(v for k, v in stats.items() if k.startswith("fired/short/"))
+    if got_err < 0.7 * n_err_cases:
+        low.append("the shim delivered an error in %d of %d error-injecting cases" % (got_err, n_err_cases))
+    if got_short < 0.7 * fault_kinds["write-short-no-error"]:
+        low.append("a short write happened in %d of %d short-write cases" % (got_short, fault_kinds["write-short-no-error"]))
+    if stats.get("free_list_vs_file_checks_at_start", 0) < n_cases:
+        low.append("the in-memory free list was compared with the file %d times in %d cases" % (stats.get("free_list_vs_file_checks_at_start", 0), n_cases))
+    if stats.get("commit/err:Io", 0) < fault_kinds["extension-limit"] // 2:
+        low.append("few commits failed under the file-size limit")
+    if low and not violations:
+        pth = vlib.write_replay(prop, "coverage", [], {"broken": "the fault-injection correspondence covers far less than the cases generated: " + "; ".join(low)})
+        violations.append((pth, "fault-injection coverage below its floor: " + "; ".join(low), " no-failing-input-found"))
     return {"violations": violations, "coverage": cov, "explored": n_cases, "known": []}
 
 
